@@ -405,6 +405,106 @@ def h2_case(seed):
     return desc, fails
 
 
+def h2_late_upload_case(seed):
+    """A stream whose response is already complete keeps uploading (a full connection window and more); the credit must
+    come back, or every other stream with a request body starves: a fault of one stream reaching the others."""
+    import h2.config
+    import h2.connection
+    import h2.events
+
+    rng = random.Random(seed)
+    worker = rng.choice(["asyncio", "trio"])
+    policy = rng.choice(["fifo", "random"])
+    total = rng.choice([65535, 70000, 150000])
+    chunk = rng.choice([1000, 16384])
+    pump_every = rng.choice([1, 4, 1000])        # 1000: everything the windows allow is in flight before the client reads
+    driver = S.Driver(seed=seed, policy=policy)
+    cfg = R.make_config(())
+    cfg._log = R.RecLog([])
+    rig = S.ProtoRig(simple_app(driver), cfg, driver, alpn="h2", ssl=True, worker=worker)
+    c = h2.connection.H2Connection(h2.config.H2Configuration(client_side=True, header_encoding=None))
+    c.initiate_connection()
+    seen = {"data": {}, "ended": set(), "reset": set(), "goaway": False, "consumed": 0}
+
+    def feed():
+        out = c.data_to_send()
+        if out:                      # an empty read is the end of the stream for the trio flavour of the loop
+            rig.feed(out)
+
+    def pump():
+        feed()
+        rig.run(max_steps=driver.steps + 50000)
+        w = bytes(rig.transport.written)
+        new, seen["consumed"] = w[seen["consumed"]:], len(w)
+        if new:
+            for ev in c.receive_data(new):
+                if isinstance(ev, h2.events.DataReceived):
+                    seen["data"][ev.stream_id] = seen["data"].get(ev.stream_id, b"") + ev.data
+                    c.acknowledge_received_data(ev.flow_controlled_length, ev.stream_id)
+                elif isinstance(ev, h2.events.StreamEnded):
+                    seen["ended"].add(ev.stream_id)
+                elif isinstance(ev, h2.events.StreamReset):
+                    seen["reset"].add(ev.stream_id)
+                elif isinstance(ev, h2.events.ConnectionTerminated):
+                    seen["goaway"] = True
+            feed()
+            rig.run(max_steps=driver.steps + 50000)
+
+    pump()
+    hdr = [(b":scheme", b"https"), (b":authority", b"x")]
+    c.send_headers(1, [(b":method", b"POST"), (b":path", b"/early")] + hdr)
+    if pump_every < 1000:
+        pump()
+    sent, k, stalled = 0, 0, False
+    while sent < total:
+        try:
+            n = min(chunk, total - sent, c.local_flow_control_window(1))
+        except Exception:  # noqa: BLE001  (the server has reset the stream: the upload stops here)
+            break
+        if n <= 0:
+            before = sent
+            pump()
+            try:
+                if c.local_flow_control_window(1) <= 0:
+                    stalled = True
+                    break
+            except Exception:  # noqa: BLE001
+                break
+            continue
+        try:
+            c.send_data(1, b"x" * n)
+        except Exception:  # noqa: BLE001
+            break
+        sent += n
+        k += 1
+        if k % pump_every == 0:
+            pump()
+    pump()
+    desc = {"seed": seed, "protocol": "h2", "kind": "late-upload", "worker": worker, "bytes": sent, "eof": True, "total": total,
+            "chunk": chunk, "pump_every": pump_every}
+    fails = []
+    # the victim: an ordinary request with a body on the same connection
+    c.send_headers(3, [(b":method", b"POST"), (b":path", b"/v")] + hdr)
+    pump()
+    credit = c.local_flow_control_window(3)
+    if credit < 3:
+        fails.append({"signature": "h2-connection-window-not-returned", "desc": desc, "credit": credit, "uploaded": sent})
+    else:
+        c.send_data(3, b"abc", end_stream=True)
+        pump()
+        if seen["data"].get(3) != b"ok:abc" or 3 not in seen["ended"]:
+            fails.append({"signature": "h2-victim-stream-affected", "desc": desc, "victim": 3, "got": seen["data"].get(3), "goaway": seen["goaway"]})
+    rig.eof()
+    outcomes = [rig.run(max_steps=driver.steps + 50000)]
+    fails.extend(judge_common(rig, driver, outcomes, desc))
+    # F14: the application that answered without reading has its queue full of body messages; its stream's closure puts
+    # the disconnect into that queue from inside the application's own send(): known, and what follows from it is the same defect
+    if any(t.name.startswith("app") and not t.done and t.waiting is not None and t.waiting.label == "queue.put" for t in driver.tasks):
+        for f in fails:
+            f["signature"] = "F14:app-queue-full-deadlock"
+    return desc, fails
+
+
 def ws_case(seed):
     rng = random.Random(seed)
     head, frames = ws_session(rng)
@@ -441,7 +541,8 @@ def run(ctx):
         if s["errors"]:
             oracle_failures.append({"signature": "internal-error:explicit-schedule", "errors": s["errors"][:2]})
     descs = []
-    for fn, count in ((h1_case, ctx.scale(400, 6000, 2000)), (h2_case, ctx.scale(400, 6000, 2000)), (ws_case, ctx.scale(100, 1500, 500))):
+    for fn, count in ((h1_case, ctx.scale(400, 6000, 2000)), (h2_case, ctx.scale(400, 6000, 2000)), (h2_late_upload_case, ctx.scale(24, 300, 100)),
+                      (ws_case, ctx.scale(100, 1500, 500))):
         for i in range(count):
             d, f = fn(ctx.seed * 15485863 + i)
             descs.append(d)
@@ -474,6 +575,10 @@ def run(ctx):
 
 
 def known_still_fails(k):
+    if k.get("signature") == "F14:app-queue-full-deadlock":
+        from .c06 import f14_witness
+
+        return f14_witness()
     return None
 
 
